@@ -109,7 +109,9 @@ def tlc(spec_dir, module, cfg, workers=None, dump=None, dump_dot=None, simulate=
         timeout=1200, xmx="8g", extra=(), env=None, metadir=None, coverage=False, cont=False, deadlock=None):
     md = metadir or scratch("tlc-" + module)
     libs = os.pathsep.join(os.path.join(ROOT, "spec", d) for d in sorted(os.listdir(os.path.join(ROOT, "spec"))))
-    cmd = ["java", "-Xmx" + xmx, "-XX:+UseParallelGC", "-DTLA-Library=" + libs, "-cp", TLA_CP, "tlc2.TLC",
+    os.makedirs(md, exist_ok=True)
+    # java.io.tmpdir: TLC leaves a tlc-<random> directory per run in the temporary directory; keep it inside the run's own scratch
+    cmd = ["java", "-Xmx" + xmx, "-XX:+UseParallelGC", "-Djava.io.tmpdir=" + md, "-DTLA-Library=" + libs, "-cp", TLA_CP, "tlc2.TLC",
            "-workers", str(workers or NCPU), "-metadir", md, "-config", cfg, "-noGenerateSpecTE"]
     if dump:
         cmd += ["-dump", dump]
